@@ -113,10 +113,15 @@ func (zns *ZnPMServer) Start(connUrl string) error {
 // ///// MASTER logic ///////
 // //////////////////////////
 func (zns *ZnPMServer) StartMaster(connUrl string, cfg ZnPMServerConfig) error {
+	// a pool serves with at least one worker: a bound below that cannot be kept, so it is refused
+	// instead of being ignored
+	if cfg.MaxProcs < 1 {
+		return fmt.Errorf("--max-procs 不得小于 1（当前为 %d）", cfg.MaxProcs)
+	}
 	// --max-procs is the hard bound: an initial number above it (e.g. the default --init-procs
 	// together with a small --max-procs) is cut down to it, or the pool would start - and be
 	// topped up after every exit - beyond the bound
-	if cfg.MaxProcs > 0 && cfg.InitProcs > cfg.MaxProcs {
+	if cfg.InitProcs > cfg.MaxProcs {
 		cfg.InitProcs = cfg.MaxProcs
 	}
 	// new workers are only started in reaction to reports and exits of existing ones: a pool
